@@ -235,7 +235,9 @@ func (e *Exec) violate(v *Violation) {
 		return
 	}
 	if kf := e.Known.Match(v); kf != nil {
-		e.KnownHits = append(e.KnownHits, fmt.Sprintf("property=%s %s", v.Property, kf.What))
+		if v.Property == e.Prop || e.Prop == "ALL" {
+			e.KnownHits = append(e.KnownHits, fmt.Sprintf("property=%s %s", v.Property, kf.What))
+		}
 		e.Stats.Inc("known_finding." + v.Property + "." + v.Class)
 		if v.Entity != "" {
 			e.tainted[v.Property+"|"+v.Entity] = true
